@@ -52,7 +52,8 @@ func ValidateBeaconBlock(ctx context.Context, block *common.BeaconBlockEnvelope,
 	// [IGNORE] The block is from a slot greater than the latest finalized slot --
 	// i.e. validate that signed_beacon_block.message.slot > compute_start_slot_at_epoch(state.finalized_checkpoint.epoch)
 	fin := ch.FinalizedCheckpoint()
-	if finSlot, _ := spec.EpochStartSlot(fin.Epoch); block.Slot <= finSlot {
+	finSlot, _ := spec.EpochStartSlot(fin.Epoch)
+	if block.Slot <= finSlot {
 		return GossipValidatorResult{IGNORE, fmt.Errorf("block slot %d is not after finalized slot %d", block.Slot, finSlot)}
 	}
 	// [REJECT] The current finalized_checkpoint is an ancestor of block -- i.e. get_ancestor(store, block.parent_root, compute_start_slot_at_epoch(store.finalized_checkpoint.epoch)) == store.finalized_checkpoint.root
@@ -60,6 +61,13 @@ func ValidateBeaconBlock(ctx context.Context, block *common.BeaconBlockEnvelope,
 		return GossipValidatorResult{IGNORE, fmt.Errorf("failed to determine if parent block %s is in subtree of finalized block %s", block.ParentRoot, fin.Root)}
 	} else if !inSubtree {
 		return GossipValidatorResult{REJECT, fmt.Errorf("parent block %s is not in subtree of finalized root %s", block.ParentRoot, fin.Root)}
+	}
+	// Building on the finalized block is not enough: a parent chain with a block before the start slot of the finalized epoch
+	// (on top of a finalized block that is older than that slot) conflicts with the finalized checkpoint.
+	if ancestor, ok := GetAncestor(ch, parentRef, finSlot); !ok {
+		return GossipValidatorResult{IGNORE, fmt.Errorf("failed to determine the ancestor of parent block %s at finalized slot %d", block.ParentRoot, finSlot)}
+	} else if ancestor != fin.Root {
+		return GossipValidatorResult{REJECT, fmt.Errorf("parent block %s conflicts with finalized checkpoint %s", block.ParentRoot, fin.Root)}
 	}
 
 	// [REJECT] The block's parent (defined by block.parent_root) passes validation.
